@@ -10,7 +10,7 @@ import itertools
 
 from ..source import AnalysisError, norm
 from ..cfg import class_named, function_named
-from ..interp import Interp, Obj, Raised, ClassRef
+from ..interp import class_members, Interp, Obj, Raised, ClassRef
 from ..grammar import load_dialect, DIALECTS
 from ..lexmodel import spelling
 
@@ -95,6 +95,12 @@ def join_vocabulary(ctx):
 
 
 _METHODS = {}
+_CTX = {}
+
+
+def interp_for(stubs, file=None, **kw):
+    """an interpreter that resolves methods and class constants of the planner classes and the module-level names of `file`"""
+    return Interp.for_file(_CTX['src'], file or PJ, ISA, stubs, also=('mindsdb_sql/planner/plan_join.py', 'mindsdb_sql/planner/query_planner.py'), **kw)
 
 
 def run(ctx):
@@ -116,9 +122,8 @@ def run(ctx):
     tree = ctx.src.tree(PJ)
     cls = class_named(tree, 'PlanJoinTablesQuery')
     ctx.need(cls is not None, 'PlanJoinTablesQuery not found')
-    fn = {m.name: m for m in cls.body if isinstance(m, ast.FunctionDef)}
-    _METHODS.clear()
-    _METHODS['PlanJoinTablesQuery'] = fn
+    fn = class_members(cls)
+    _CTX.update(tree=tree, src=ctx.src)
     for need in ('check_query_conditions', 'check_node_condition', 'check_use_limit', 'process_table', 'get_filters_from_join_conditions',
                  'get_join_sequence', 'plan'):
         ctx.need(need in fn, f'PlanJoinTablesQuery.{need} not found')
@@ -146,7 +151,7 @@ def run(ctx):
         got = []
         stubs = base_stubs()
         stubs['self.check_node_condition'] = lambda it, n: got.append(n)
-        it = Interp(ISA, stubs, methods=_METHODS)
+        it = interp_for(stubs)
         self_ = Obj('PlanJoinTablesQuery', query_context={})
         try:
             it.call_function(fn['check_query_conditions'], [self_, select_ctor(None, where=where)], {}, _env())
@@ -188,7 +193,7 @@ def run(ctx):
         tinfo.attrs['conditions'] = []
         stubs = base_stubs()
         stubs['self.get_table_for_column'] = lambda it, c: c.attrs.get('_table') if isinstance(c, Obj) else None
-        it = Interp(ISA, stubs, methods=_METHODS)
+        it = interp_for(stubs)
         try:
             it.call_function(fn['check_node_condition'], [Obj('PlanJoinTablesQuery'), node], {}, _env())
         except Raised as r:
@@ -238,7 +243,7 @@ def run(ctx):
         stubs['SubSelectStep'] = lambda it, *a, **k: Obj('SubSelectStep', result='R-sub', args=a)
         stubs['Parameter'] = lambda it, v: Obj('Parameter', value=v)
         self_ = Obj('PlanJoinTablesQuery', tables_fetch_step={0: Obj('FetchDataframeStep', result='R0')})
-        it = Interp(ISA, stubs, methods=_METHODS)
+        it = interp_for(stubs)
         try:
             res = it.call_function(fn['get_filters_from_join_conditions'], [self_, me], {}, _env())
         except Raised as r:
@@ -281,7 +286,7 @@ def run(ctx):
         stubs['SubSelectStep'] = lambda it, *a, **k: Obj('SubSelectStep', result='R-sub', args=a)
         stubs['Parameter'] = lambda it, v: Obj('Parameter', value=v)
         self_ = Obj('PlanJoinTablesQuery', tables_fetch_step={0: Obj('FetchDataframeStep', result='R0')})
-        it = Interp(ISA, stubs, methods=_METHODS)
+        it = interp_for(stubs)
         try:
             res = it.call_function(fn['get_filters_from_join_conditions'], [self_, me], {}, _env()) or []
         except Raised as r:
@@ -308,7 +313,7 @@ def run(ctx):
         stubs['self.resolve_table'] = resolve
         stubs['self.planner.get_predictor'] = lambda it, n: None
         self_ = Obj('PlanJoinTablesQuery', tables_idx={}, tables=[])
-        it = Interp(ISA, stubs, methods=_METHODS)
+        it = interp_for(stubs)
         it.stubs['self.get_join_sequence'] = lambda itp, *a, **k: itp.call_function(fn['get_join_sequence'], [self_] + list(a), dict(k), _env())
         seq = it.call_function(fn['get_join_sequence'], [self_, j2], {}, _env())
         rows += 1
@@ -355,7 +360,7 @@ def run(ctx):
         q = select_ctor(None, limit=const(5) if limit else None, group_by=[ident('t1.a')] if group_by else None,
                         having=cmp_('t1.a') if having else None, distinct=distinct, targets=target_shapes[tname])
         self_ = Obj('PlanJoinTablesQuery', query_context={})
-        it = Interp(ISA, base_stubs(), methods=_METHODS)
+        it = interp_for(base_stubs())
         try:
             it.call_function(fn['check_use_limit'], [self_, q, seq], {}, _env())
         except Raised as r:
@@ -425,7 +430,7 @@ def run(ctx):
         stubs['self.add_plan_step'] = lambda it, s: s
         self_ = Obj('PlanJoinTablesQuery', query_context={'use_limit': use_limit, 'binary_ops': ['and', 'or'] if has_or else ['and'], count_key: n_conj},
                     tables_fetch_step={}, step_stack=[])
-        it = Interp(ISA, stubs, methods=_METHODS)
+        it = interp_for(stubs)
         try:
             it.call_function(fn['process_table'], [self_, me, q], {}, _env())
         except Raised as r:
@@ -482,7 +487,7 @@ def run(ctx):
         stubs['self.plan_join_tables'] = lambda it, query: join_step
         stubs['self.planner.plan.add_step'] = lambda it, s: (added.append(s), s)[1]
         stubs['QueryStep'] = lambda it, query, from_table=None, **k: Obj('QueryStep', query=query, from_table=from_table)
-        it = Interp(ISA, stubs, methods=_METHODS)
+        it = interp_for(stubs)
         res = it.call_function(fn['plan'], [Obj('PlanJoinTablesQuery', tables_idx=None), q], {}, _env())
         rows += 1
         if label == 'none':
@@ -522,7 +527,7 @@ def run(ctx):
         stubs['SubSelectStep'] = lambda it, q, res, **k: Obj('SubSelectStep', query=q, dataframe=res, **k)
         stubs['FetchDataframeStep'] = lambda it, **k: Obj('FetchDataframeStep', **k)
         self_ = Obj('QueryPlanner', default_namespace=default_ns, cte_results={'sales': 'R-cte'})
-        it = Interp(ISA, stubs, methods=_METHODS)
+        it = interp_for(stubs, file=QP)
         res = it.call_function(gis, [self_, select_ctor(None, from_table=tbl, targets=[Obj('Star')])], {}, _env())
         rows += 1
         got = 'cte' if res.kind == 'SubSelectStep' else res.attrs.get('integration')
@@ -550,7 +555,7 @@ def run(ctx):
             stubs['self.plan_select'] = plan_select
             stubs['self.plan.add_step'] = lambda it, s2: (added.append(s2), s2)[1]
             stubs['UnionStep'] = lambda it, **k: Obj('UnionStep', **k)
-            it = Interp(dict(ISA, **{'Union': set(), 'Except': set(), 'Intersect': set()}), stubs)
+            it = Interp.for_file(ctx.src, QP, dict(ISA, **{'Union': set(), 'Except': set(), 'Intersect': set()}), stubs)
             res = it.call_function(pu, [Obj('QueryPlanner'), Obj(kind, left=left, right=right, unique=unique)], {}, _env())
             rows += 1
             ok = len(added) == 1 and res is added[0] and added[0].attrs.get('operation') == want_op and added[0].attrs.get('unique') is unique \
@@ -573,7 +578,7 @@ def run(ctx):
         stubs = base_stubs()
         stubs['self.plan.add_step'] = lambda it, s2: (added.append(s2), s2)[1]
         stubs['SubSelectStep'] = lambda it, query, dataframe, **k: Obj('SubSelectStep', query=query, dataframe=dataframe, **k)
-        it = Interp(ISA, stubs, methods=_METHODS)
+        it = interp_for(stubs, file=QP)
         res = it.call_function(pss, [Obj('QueryPlanner'), q, prev], {}, _env())
         rows += 1
         if label == 'none':
